@@ -577,23 +577,65 @@ func execC15(c c15Case) Outcome {
 		}
 		byTs[i] = e.Ev
 	}
+	// grouping oracle (metamorphic): the same kernel events delivered one after
+	// the other — no interleaving — through a second processor instance must give
+	// the same UserAction per kernel event. Records of one event mixed into
+	// another differ; how an event is rendered is C14's concern and cancels out.
+	ref, rerr := c15SequentialReference(events)
+	if rerr != nil {
+		return Outcome{Err: rerr}
+	}
 	for _, ae := range events {
-		want, err := expectedRendering(ae)
-		if err != nil {
-			panic(&infraError{"generated event does not coalesce: " + err.Error()})
-		}
 		got, ok := byTs[ae.TsIdx]
 		if !ok {
 			return fail("kernel event seq %d (%d records) produced no UserAction (schedule %v)", ae.Seq, len(ae.Lines), c.Order)
 		}
-		if err := checkRendering(got, want, evTime(ae.TsIdx), ae.Ses, ae.Success); err != nil {
-			return fail("kernel event seq %d (%d records, schedule %v): %v; emitted %s", ae.Seq, len(ae.Lines), c.Order, err, evJSON(got))
+		want, ok := ref[ae.TsIdx]
+		if !ok {
+			return fail("kernel event seq %d produced no UserAction even when its records are delivered without interleaving", ae.Seq)
+		}
+		if canonEvent(got) != want {
+			return fail("kernel event seq %d (%d records, schedule %v): interleaved with other events' records it is emitted as %s, delivered alone as %s", ae.Seq, len(ae.Lines), c.Order, canonEventKeepTime(got), want)
 		}
 	}
 	if interleaved {
 		labels = append(labels, "records_of_concurrent_events_interleaved")
 	}
 	return Outcome{NT: interleaved, Labels: labels}
+}
+
+func canonEventKeepTime(ev *auditevent.AuditEvent) string {
+	c := deepCopyEvent(ev)
+	c.Metadata.AuditID = ev.Metadata.AuditID
+	return evJSON(c)
+}
+
+// c15SequentialReference feeds the events one after the other (each event's
+// records contiguous) and returns the emitted UserAction per timestamp index.
+func c15SequentialReference(events []audEvent) (map[int]string, error) {
+	rig := newReadRig(nil)
+	defer rig.stop()
+	if err := rig.login(loginFor(0, hop{K: "login", P: 1})); err != nil {
+		return nil, fmt.Errorf("reference run: Read exited: %v", rig.exitErr)
+	}
+	if err := rig.loginBarrier(); err != nil {
+		return nil, fmt.Errorf("reference run: Read exited: %v", rig.exitErr)
+	}
+	for _, ae := range events {
+		for _, l := range ae.Lines {
+			if err := rig.line(l); err != nil {
+				return nil, fmt.Errorf("reference run: Read exited with %v on a well-formed stream", rig.exitErr)
+			}
+		}
+	}
+	if err := rig.auditBarrier(); err != nil {
+		return nil, fmt.Errorf("reference run: Read exited with %v on a well-formed stream", rig.exitErr)
+	}
+	out := map[int]string{}
+	for _, e := range rig.rec.Events() {
+		out[evIndexOf(e.Ev.LoggedAt)] = canonEvent(e.Ev)
+	}
+	return out, nil
 }
 
 func c15CheckExit(c c15Case, err error) Outcome {
